@@ -770,12 +770,17 @@ int myth_verif_gettime(struct timespec *ts) {
   g_st.clock_reads++;
   if (inc == 0) g_st.clock_zero++;
   if (g_cfg.clk_jump_ns && (uint64_t)inc >= g_cfg.clk_jump_ns) g_st.clock_jumps++;
+  if ((uint64_t)inc > 18000000000000000000ULL - g_clock_ns)
+    mvsim_violation("INFRA", "virtual clock would overflow 64-bit nanoseconds (harness must rescale the clock)");
   g_clock_ns += (uint64_t)inc;
   g_clock_last_value = g_clock_ns;
   ts->tv_sec = (time_t)(g_clock_ns / 1000000000ULL);
   ts->tv_nsec = (long)(g_clock_ns % 1000000000ULL);
   return 1;
 }
+
+/* the harness may rescale the clock between calls (a run mixing nanosecond and decades-long waits) */
+void mvsim_set_clock_scale(uint64_t read_ns, uint64_t jump_ns) { g_cfg.clk_read_ns = read_ns ? read_ns : 1; g_cfg.clk_jump_ns = jump_ns; }
 
 int myth_verif_queue_size(int dflt) {
   if (!g_active || g_cfg.queue_size <= 0) return dflt;
